@@ -322,34 +322,22 @@ def Known.matches (k : Known) (s : Site) : Bool := k.field == s.field && k.fn ==
 race-detector report; (`field`, `fn`, `kind`) = the violating site of the regenerated table it corresponds to;
 `confirmed` = the detector exhibited it in one of `scenarios` during the pre-study of this check. -/
 def knownRacy : List Known := [
-  ⟨"c14:race:session.go:session.graceCtxWait|session.startReadAndHandle", "session.graceCtxWaitGroup", "session.startReadAndHandle", "W", true, ["close", "redial"],
+  ⟨"c14:race:session.go:session.graceCtxWait|session.startReadAndHandle", "session.graceCtxWaitGroup", "session.startReadAndHandle", "W", true, ["close", "redial", "thrift"],
    "graceCtxWaitGroup.Add(1) in the read loop is not ordered with Wait in Close (graceCtxWait): sync.WaitGroup misuse"⟩,
   ⟨"c14:race:peer.go:peer.getContext|session.graceCtxWait", "session.graceCtxWaitGroup", "peer.getContext", "W", true, ["close", "redial"],
    "graceCtxWaitGroup.Add(1) in getContext (Push) is not ordered with Wait in Close/readDisconnected; also crashes the process: panic 'sync: WaitGroup is reused before previous Wait has returned'"⟩,
   ⟨"c14:race:session.go:session.AsyncCall|session.closeLocked", "session.graceCallCmdWaitGroup", "session.AsyncCall", "W", true, ["close"],
    "graceCallCmdWaitGroup.Add(1) in AsyncCall is not ordered with Wait in closeLocked"⟩,
-  ⟨"c14:race:context.go:callCmd.CostTime|handlerCtx.handleReply", "callCmd.cost", "handlerCtx.handleReply$defer", "W", true, ["sess", "close", "redial"],
-   "handleReply writes callCmd.cost after done() has closed doneChan; CostTime reads it after <-Done() without the lock"⟩,
-  ⟨"c14:race:peer.go:peer.Close|peer.serveListener", "peer.listeners", "peer.serveListener", "W", true, ["listen"],
-   "p.listeners[lis] = struct{}{} in serveListener without peer.mu against the range in Close"⟩,
-  ⟨"c14:race:peer.go:peer.Close|peer.serveListener", "peer.listeners", "peer.Close", "R", true, ["listen"],
-   "range p.listeners in Close without peer.mu"⟩,
-  ⟨"c14:race:listener.go:NewInheritedListener|peer.Close", "peer.listeners", "peer.Close", "R", true, ["listen"],
-   "the listener object published through the unguarded map is used by Close without ordering"⟩,
   ⟨"c14:race:binary_proto.go:tBinaryProto.Pack|tBinaryProto.Unpack", "tBinaryProto.tProtocol", "tBinaryProto.binaryUnpack", "R", true, ["thrift"],
    "one thrift THeaderProtocol object is used by Pack under packLock and by Unpack under unpackLock"⟩,
   ⟨"c14:race:binary_proto.go:tBinaryProto.Pack|tBinaryProto.Unpack", "tBinaryProto.tProtocol", "tBinaryProto.Pack", "R", true, ["thrift"],
    "t.tProtocol.Transport().Close() outside any lock"⟩,
   ⟨"c14:race:binary_proto.go:tBinaryProto.Pack|tBinaryProto.Unpack", "tBinaryProto.tProtocol", "tBinaryProto.Unpack", "R", true, ["thrift"],
    "t.tProtocol.Transport().Close() outside any lock"⟩,
-  ⟨"c14:race:rw_counter.go:WriteCounter|WriteCounter", "tBinaryProto.writeCount", "tBinaryProto.binaryUnpack", "W", true, ["thrift"],
-   "binaryUnpack zeroes the WRITE counter (under unpackLock) while Pack counts into it under packLock"⟩,
   ⟨"c14:race:struct_proto.go:tStructProto.Pack|tStructProto.Unpack", "tStructProto.tProtocol", "tStructProto.structUnpack", "R", false, [],
    "same defect in the struct protocol (not exercised by a scenario)"⟩,
   ⟨"c14:race:struct_proto.go:tStructProto.Pack|tStructProto.Unpack", "tStructProto.tProtocol", "tStructProto.Pack", "R", false, [], "same defect in the struct protocol"⟩,
   ⟨"c14:race:struct_proto.go:tStructProto.Pack|tStructProto.Unpack", "tStructProto.tProtocol", "tStructProto.Unpack", "R", false, [], "same defect in the struct protocol"⟩,
-  ⟨"c14:race:rw_counter.go:WriteCounter|WriteCounter", "tStructProto.writeCount", "tStructProto.structUnpack", "W", false, [],
-   "structUnpack zeroes the write counter (not exercised by a scenario)"⟩,
   ⟨"c14:race:socket.go:socket.Conn", "socket.Conn", "session.RemoteAddr", "R", true, ["redial"],
    "promoted net.Conn method through the embedded socket.Conn without socket.mu against socket.Reset during redial"⟩,
   ⟨"c14:race:socket.go:socket.Conn", "socket.Conn", "session.LocalAddr", "R", true, ["redial"], "as above"⟩,
